@@ -166,6 +166,23 @@ def run(ctx):
             db.rel,
             fn.lineno,
         )
+    # ---- C31.6 content-addressed cache files are (re)written whenever the value is recorded ----
+    r6 = ctx.rule("C31.6", "FileCache.serialize writes the cache file unconditionally (existence is not evidence of content)", floor=1)
+    from ..filerules import existence_gated_writes
+
+    fs = vm.func("FileCache.serialize")
+    writes = [c for c in calls_in(fs) if isinstance(c.func, ast.Attribute) and c.func.attr == "write"]
+    if not writes:
+        raise AnalysisError("FileCache.serialize no longer writes the cache file", "FileCache.serialize")
+    gated = existence_gated_writes(vm, fs)
+    r6.check(
+        not gated,
+        f"{vm.rel}:FileCache.serialize:write-gated-by-existence",
+        f"FileCache.serialize writes the cache file only when `{gated[0][1] if gated else ''}` is false: a partial file left by an interrupted write under that (content-hash) name is kept, every later "
+        "record_value of the same value succeeds without repairing it, and reading the value back raises an unpickling error instead of returning the recorded value",
+        vm.rel,
+        gated[0][0].lineno if gated else fs.lineno,
+    )
 
 
 def _after_negative_return(cfg, call, hv: str) -> bool:
